@@ -75,6 +75,8 @@ func main() {
 			cr.RunFaults(*out)
 		case "cuts":
 			cr.RunCuts(*out)
+		case "replay":
+			cr.RunReplay(*in, *out)
 		default:
 			cr.Run(*out, *mode)
 		}
